@@ -176,12 +176,22 @@ func NewManager(publisher LocalPublisher) *Manager {
 func (epc *Manager) Shutdown() {
 	defer epc.wg.Wait()
 	epc.shutdown.Store(true)
-	// expire the connections
-	epc.mu.Lock()
-	defer epc.mu.Unlock()
-	for _, conn := range epc.conns {
+	// expire the connections, not under the manager lock: a connection that
+	// is in the middle of a send keeps its own lock until the send returns
+	for _, conn := range epc.snapshot() {
 		conn.ExpireNow()
 	}
+}
+
+// snapshot returns the current connections by endpoint
+func (epc *Manager) snapshot() map[string]Conn {
+	epc.mu.Lock()
+	defer epc.mu.Unlock()
+	conns := make(map[string]Conn, len(epc.conns))
+	for endpoint, conn := range epc.conns {
+		conns[endpoint] = conn
+	}
+	return conns
 }
 
 // Run starts the managing of endpoints
@@ -192,15 +202,17 @@ func (epc *Manager) run() {
 			return
 		}
 		time.Sleep(time.Second)
-		func() {
-			epc.mu.Lock()
-			defer epc.mu.Unlock()
-			for endpoint, conn := range epc.conns {
-				if conn.Expired() {
+		// Expired waits for a send in progress on that connection, so it is
+		// not asked under the manager lock, which every other send needs
+		for endpoint, conn := range epc.snapshot() {
+			if conn.Expired() {
+				epc.mu.Lock()
+				if epc.conns[endpoint] == conn {
 					delete(epc.conns, endpoint)
 				}
+				epc.mu.Unlock()
 			}
-		}()
+		}
 	}
 }
 
@@ -215,7 +227,16 @@ func (epc *Manager) Send(endpoint, msg string) error {
 	for {
 		epc.mu.Lock()
 		conn, exists := epc.conns[endpoint]
-		if !exists || conn.Expired() {
+		epc.mu.Unlock()
+		// see run: not under the manager lock
+		expired := exists && conn.Expired()
+		epc.mu.Lock()
+		if cur, ok := epc.conns[endpoint]; ok != exists || cur != conn {
+			// added, replaced or removed meanwhile, look again
+			epc.mu.Unlock()
+			continue
+		}
+		if !exists || expired {
 			ep, err := parseEndpoint(endpoint)
 			if err != nil {
 				epc.mu.Unlock()
@@ -223,6 +244,7 @@ func (epc *Manager) Send(endpoint, msg string) error {
 			}
 			switch ep.Protocol {
 			default:
+				epc.mu.Unlock()
 				return errors.New("invalid protocol")
 			case HTTP:
 				conn = newHTTPConn(ep)
